@@ -121,7 +121,7 @@ def forward_filtering_backward_sampling(
 
         def t_branch(prev, obs):
             alpha = jax.scipy.special.logsumexp(
-                prev + transition_n,
+                prev + transition_n.T,
                 axis=-1,
             )
             alpha = obs_n + alpha.reshape(-1, 1)
